@@ -29,7 +29,7 @@ theorem clearRot_expected (p : OG.C17.Params) (k : Int) :
   ⟨rfl, rfl, rfl⟩
 
 theorem needRotate_expected (p : OG.C17.Params) (n o d : Int) :
-    needRotate p n o d = (decide (n ≥ (p.cap : Int)) || decide (o + 4 + d > (p.maxSize : Int))) := rfl
+    needRotate p n o d = (decide (n ≥ (p.cap : Int)) || (decide (n > 0) && decide (o + 4 + d > (p.maxSize : Int)))) := rfl
 
 theorem nextOffset_expected (o d : Int) : nextOffset o d = o + 4 + d := rfl
 
@@ -44,7 +44,7 @@ theorem returns_seekEntry_expected : returns_seekEntry = ["emptyEntry, nil", "em
 transcribes by hand -/
 theorem fingerprints_expected : fingerprints = [
   ("entrylog.go:entryLog.allEntries", "cc215a713d8f18f1"),
-  ("entrylog.go:entryLog.AddEntries", "eb7ccddd52711a04"),
+  ("entrylog.go:entryLog.AddEntries", "811ef7c234c263fc"),
   ("entrylog.go:entryLog.slotGe", "044b4695e5335b53"),
   ("entrylog.go:entryLog.seekEntry", "c4831ae1a86785e1"),
   ("entrylog.go:entryLog.Term", "85244e8bf91dd983"),
